@@ -130,7 +130,8 @@ fn partial_decode<'a>(
                     let bit_enc0 = component_idx * component_size_bits_extracted;
                     for bit in 0..component_size_bits_extracted {
                         let bit_in = bit_enc0 + bit + bit_offset_from_contiguous_byte_range;
-                        let bit_out = bit_dec0 + bit;
+                        // The encoded bits are the bits `first_bit..=last_bit` of the component
+                        let bit_out = bit_dec0 + first_bit + bit;
                         let (byte_enc, bit_enc) = bit_in.div_rem(&8);
                         let (byte_dec, bit_dec) = div_rem_8bit(bit_out, component_size_bits);
                         bytes_dec[usize::try_from(byte_dec).unwrap()] |=
@@ -140,14 +141,12 @@ fn partial_decode<'a>(
                     }
                     if sign_extension {
                         let signed: bool = {
-                            let (byte_dec, bit_dec) = div_rem_8bit(
-                                bit_dec0 + component_size_bits_extracted.saturating_sub(1),
-                                component_size_bits,
-                            );
+                            let (byte_dec, bit_dec) =
+                                div_rem_8bit(bit_dec0 + last_bit, component_size_bits);
                             bytes_dec[usize::try_from(byte_dec).unwrap()] >> bit_dec & 0x1 == 1
                         };
                         if signed {
-                            for bit in component_size_bits_extracted..component_size_bits {
+                            for bit in (last_bit + 1)..component_size_bits {
                                 let (byte_dec, bit_dec) =
                                     div_rem_8bit(bit_dec0 + bit, component_size_bits);
                                 bytes_dec[usize::try_from(byte_dec).unwrap()] |= 1 << bit_dec;
